@@ -48,7 +48,16 @@ def random_W(rng: random.Random) -> dict:
         if op == "register":
             st["ch"] = rng.choice(late)
         if op == "delay_token":
-            st["ms"] = rng.choice([100, 400])
+            st["ms"] = rng.choice([100, 400, 900])
+            if rng.random() < 0.6:
+                script.append(st)
+                st = {"at": t + rng.choice([50, 200]), "op": rng.choice(["register", "key_expired"]), "ch": rng.choice(late)}
+                if st["op"] == "key_expired":
+                    if not init or fl.startswith("bitstamp"):
+                        continue
+                    st["ch"] = "spot_user_data" if (fl == "binance" and "spot_user_data" in init) else init[0]
+                    if fl == "binance" and st["ch"] != "spot_user_data":
+                        continue
         script.append(st)
     return {"flavour": fl, "channels_init": init, "backoff_s": rng.choice([1, 2, 5]), "keepalive_s": rng.choice([20, 30]),
             "script": script, "stop_at": t + rng.choice([20000, 70000]), "bound_ms": 1000, "slack_ms": 300}
@@ -84,6 +93,19 @@ def check(rep: Report, tier: str, seed: int, prop: str = None):
         rep.exhaustive = True
 
         jobs = [random_W(rng) for _ in range(300 if quick else 4000)]
+        # a slow subscription (listen key / auth token request in flight) while another channel is registered or a
+        # re-subscription is requested
+        for fl, ch0, late in (("binance", "spot_user_data", "btcusdt@trade"), ("bitstamp_private", "c1", "c2"), ("binance", "spot_user_data", None)):
+            for delay in (400, 800):
+                for off in (100, 300):
+                    sc = [{"at": 0, "op": "delay_token", "ms": delay}]
+                    if late:
+                        sc.append({"at": 1000 + off, "op": "register", "ch": late})
+                    else:
+                        sc += [{"at": 6000, "op": "delay_token", "ms": delay}, {"at": 6001, "op": "key_expired", "ch": ch0},
+                               {"at": 6001 + off, "op": "register", "ch": "late1"}]
+                    jobs.append({"flavour": fl, "channels_init": [ch0], "backoff_s": 1, "keepalive_s": 30, "bound_ms": 1500, "slack_ms": 300,
+                                 "script": sc, "stop_at": 40000})
         # regression scenario of D11: listen key expiry on a connection that stays up
         for fl, ch in (("generic", "c1"), ("binance", "spot_user_data")):
             jobs.append({"flavour": fl, "channels_init": [ch], "backoff_s": 1, "keepalive_s": 30, "bound_ms": 1000, "slack_ms": 300,
